@@ -2,7 +2,7 @@
    Statements only; proofs in MJ.C19.Proofs.  Model: C19/Model.v (write_all, WriteWrapper, take_err),
    C19/Spec.v (render_to_sink = the sink-driven run of a core-fragment program as a function of the
    chunk list of its plain run; see the header of Model.v for what this abstracts). *)
-From MJ Require Import Common.Base Lang.Syntax Lang.Interp C19.Model C19.Spec C19.Proofs.
+From MJ Require Import Common.Base Lang.Syntax Lang.Interp C19.Model C19.Partial C19.PartialProofs C19.PartialOut C19.Spec C19.Proofs.
 
 (* Generic: for ANY deterministic sequence of writes [ws] and ANY sink (call number -> accepted |
    refused with a kind), what gets delivered is a prefix of the free run, cut exactly at the first
@@ -74,6 +74,55 @@ Example sink_example :
         Some (MkErr E_WriteFailure (IoSrc K_BrokenPipe))).
 Proof. vm_compute. reflexivity. Qed.
 
+(* ---- renders that fail for a reason of their own (C19/Partial.v keeps the chunks written before the error) ---- *)
+
+(* the output-keeping interpreter is the interpreter: same success state, same error code, for every
+   program, context, mode and fuel *)
+Theorem run_partial_agrees : forall c fuel body, forget (run_partial c fuel body) = run c fuel body.
+Proof. exact run_partial_agrees_proof. Qed.
+
+(* so on a successful render the sink-driven run is the one of the theorems above *)
+Theorem render_to_sink_p_on_success : forall c fuel body split wrappers sc s,
+  run c fuel body = Ok s ->
+  render_to_sink_p c fuel body split wrappers sc = render_to_sink c fuel body split wrappers sc.
+Proof. exact render_to_sink_p_ok. Qed.
+
+(* a render that fails with [code] after writing [out]: what the sink received is a prefix of those
+   bytes; if no call failed it received all of them and the render's own error comes back unchanged;
+   if a call failed it is the last call and the result is WriteFailure with that failure as source
+   (the render error is never reached) *)
+Theorem sink_prefix_failing_render : forall c fuel body split wrappers sc code out log e,
+  split_ok split -> run_partial c fuel body = PErr code out ->
+  render_to_sink_p c fuel body split wrappers sc = Ok (log, e) ->
+  (exists rest, delivered log ++ rest = concat (rev out) /\
+     ((forall cl, In cl log -> call_fails cl = None) -> rest = [] /\ e = Some (MkErr code NoSrc))) /\
+  (forall l1 cl l2 k, log = l1 ++ cl :: l2 -> call_fails cl = Some k ->
+     l2 = [] /\ e = Some (MkErr E_WriteFailure (IoSrc k))).
+Proof. exact sink_failing_render_proof. Qed.
+
+(* a failing render never loses or rewrites what was written earlier: the chunks reported at the
+   error (and the buffer after a success) are the buffer the statements started from plus new
+   chunks in front of it (lists are most-recent-first) *)
+Theorem partial_out_extends : forall c fuel esc s l code out,
+  exec_list_p c fuel esc s l = PErr code out -> exists new, out = new ++ s_out s.
+Proof. exact partial_out_extends_proof. Qed.
+
+Theorem output_only_grows : forall c fuel esc s l sg s',
+  exec_list_p c fuel esc s l = POk (sg, s') -> exists new, s_out s' = new ++ s_out s.
+Proof. exact exec_list_p_ok_extends_proof. Qed.
+
+(* non-vacuity: `ab{% set x %}zz{{ 1 // 0 }}{% endset %}cd`: "ab" was written, the captured "zz" never *)
+Example partial_example :
+  run_partial (mkCfg Lenient [] false) 50
+    [SRaw [97; 98]; SSetBlock 100 [SRaw [122; 122]; SEmit (EBin OFloorDiv (EConst (LInt 1)) (EConst (LInt 0)))] None; SRaw [99; 100]]
+  = PErr E_InvalidOperation [[97; 98]].
+Proof. vm_compute. reflexivity. Qed.
+
+Print Assumptions run_partial_agrees.
+Print Assumptions render_to_sink_p_on_success.
+Print Assumptions sink_prefix_failing_render.
+Print Assumptions partial_out_extends.
+Print Assumptions output_only_grows.
 Print Assumptions monitor_prefix.
 Print Assumptions sink_prefix.
 Print Assumptions sink_prefix_at_chunk_boundary.
